@@ -188,4 +188,30 @@ def genesOfCopies : List SL → List String
   | c :: cs => genesOf c ++ genesOfCopies cs
 end
 
+/-! ### what the history says about a branch (compared with pyham's tree profile on every explored case; theorem
+    `C09_profile_numbers_are_the_history`) -/
+
+mutual
+/-- weight of the duplication events of the history `l` (rooted at taxon `q`) that lie on the branch INTO taxon `t`:
+    an event with `n` copies counts `w n` -/
+def dupWeight (w : Nat → Nat) (t : Taxon) : Taxon → SL → Nat
+  | _, .gene _ _ => 0
+  | q, .grp _ _ _ subs => dupWeightSubs w t q subs
+def dupWeightSubs (w : Nat → Nat) (t : Taxon) (q : Taxon) : List Sub → Nat
+  | [] => 0
+  | .one i l :: r => dupWeight w t (i :: q) l + dupWeightSubs w t q r
+  | .dup i _ cs :: r =>
+    (if (i :: q) == t then w cs.length else 0) + dupWeightCopies w t (i :: q) cs + dupWeightSubs w t q r
+  | .ann _ :: r => dupWeightSubs w t q r
+def dupWeightCopies (w : Nat → Nat) (t : Taxon) (q : Taxon) : List SL → Nat
+  | [] => 0
+  | c :: cs => dupWeight w t q c + dupWeightCopies w t q cs
+end
+
+/-- copies that the duplication events of the history place on the branch into `t` -/
+def copiesInto (t q : Taxon) (l : SL) : Nat := dupWeight id t q l
+/-- number of duplication events of the history on the branch into `t` -/
+def eventsInto (t q : Taxon) (l : SL) : Nat := dupWeight (fun _ => 1) t q l
+
+
 end Pyham
